@@ -650,24 +650,37 @@ func (it *interp) need(s *state, fn *ssa.Function, in ssa.Instruction, kind, tex
 	var detail func() string
 	var fails []int
 	failed := map[int]bool{}
+	type pendingFact struct {
+		d *disjunct
+		g lin.Ineq
+	}
+	var assume []pendingFact
 	for _, d := range s.ds {
 		for gi, g := range mk(d) {
-			if failed[gi] {
-				continue
-			}
 			if dbg := os.Getenv("RTPCHECK_NEEDDBG"); dbg != "" && strings.Contains(core.FuncName(fn), dbg) && (kind == "IDX" || kind == os.Getenv("RTPCHECK_NEEDKIND")) {
 				fmt.Printf("NEED %s %s entails=%v :: %s\n", it.prog.Position(in.Pos()), kind, it.entails(d, g), it.describe(d, g))
 			}
 			if !it.entails(d, g) {
-				failed[gi] = true
-				fails = append(fails, gi)
+				if !failed[gi] {
+					failed[gi] = true
+					fails = append(fails, gi)
+				}
 				if ok {
 					ok = false
 					dd, gg := d, g
 					detail = func() string { return it.describe(dd, gg) }
 				}
+				// whatever the verdict, execution continues past this instruction only if the goal
+				// holds (it panics otherwise): an undischarged goal is assumed from here on, so that
+				// one unproven access does not make everything computed from it look unsafe too
+				if g.L != nil && !g.L.Bad() {
+					assume = append(assume, pendingFact{d, g})
+				}
 			}
 		}
+	}
+	for _, pf := range assume {
+		pf.d.addFact(pf.g)
 	}
 	it.obligeParts(fn, in, kind, text, ok, fails, detail)
 }
